@@ -94,7 +94,16 @@ def lab_spec(draw, name, *, kind=None, max_rows=8, max_cols=6, regime="roomy", g
     if filled:
         flat = [v if v > 0 else float(int(hi_init / 2)) for v in flat]
     flat = [min(float(v), vmax) for v in flat]
+    # the caller's array type of the initial volumes: float64 (usual), an integer array, a float32 array
+    dt = draw(st.integers(0, 7))
+    if dt == 0:
+        flat = [float(max(1, int(v))) if (filled and v > 0) else float(int(v)) for v in flat]
+    elif dt == 1:
+        flat = [max(0.25, round(v * 4) / 4) if (filled and v > 0) else round(v * 4) / 4 for v in flat]
+        flat = [v if v <= vmax else float(int(vmax)) for v in flat]
     spec = {"kind": kind, "name": name, "cols": cols, "min": float(vmin), "max": float(vmax)}
+    if dt in (0, 1):
+        spec["init_dtype"] = "int64" if dt == 0 else "float32"
     if pos is not None:
         spec["pos"] = list(pos)
     naming = draw(st.sampled_from(["default", "default", "explicit", "partial", "shared"])) if allow_names else "default"
@@ -136,7 +145,7 @@ def lab_spec(draw, name, *, kind=None, max_rows=8, max_cols=6, regime="roomy", g
 
 def lab_specs(n_min=1, n_max=3, **kw):
     """1..3 labware with pairwise distinct names and distinct worktable positions."""
-    names = ["Alpha", "Beta plate", "Gamma_3"]
+    names = ["Alpha", "Beta plate ", " Gamma_3"]
 
     @st.composite
     def _labs(draw):
@@ -149,6 +158,16 @@ def lab_specs(n_min=1, n_max=3, **kw):
 # ---------------------------------------------------------------------------------------------
 # real objects
 # ---------------------------------------------------------------------------------------------
+def _init_array(spec, values):
+    """The initial volumes in the array type of the specification (exactly representable values only)."""
+    dt = spec.get("init_dtype")
+    if dt:
+        arr = np.array(values, dtype=dt)
+        if np.array_equal(arr.astype(float), np.array(values, dtype=float)):
+            return arr
+    return np.array(values, dtype=float)
+
+
 def build(spec):
     import robotools
 
@@ -163,7 +182,7 @@ def build(spec):
             spec["cols"],
             min_volume=spec["min"],
             max_volume=spec["max"],
-            initial_volumes=np.array([spec["init"]], dtype=float),
+            initial_volumes=_init_array(spec, [spec["init"]]),
             virtual_rows=spec["vrows"],
             component_names=names,
         )
@@ -174,7 +193,7 @@ def build(spec):
             spec["cols"],
             min_volume=spec["min"],
             max_volume=spec["max"],
-            initial_volumes=list(spec["init"]),
+            initial_volumes=_init_array(spec, spec["init"]) if spec.get("init_dtype") else list(spec["init"]),
             column_names=spec.get("colnames"),
         )
     return robotools.Labware(
@@ -183,7 +202,7 @@ def build(spec):
         spec["cols"],
         min_volume=spec["min"],
         max_volume=spec["max"],
-        initial_volumes=np.array(spec["init"], dtype=float),
+        initial_volumes=_init_array(spec, spec["init"]),
         component_names=spec.get("names"),
     )
 
